@@ -616,7 +616,7 @@ class Gen(object):
             if r.random() < 0.5 or fmt[1] - fmt[2] < 0:
                 op['dtype'] = 'fxp-%s%d/%d' % ('s' if fmt[0] else 'u', fmt[1], fmt[2])
             else:
-                op['dtype'] = '%s%d.%d' % (r.choice(['Q', 'S']) if fmt[0] else r.choice(['UQ', 'U']),
+                op['dtype'] = '%s%d.%d' % (r.choice(['Q', 'S', 'q', 's']) if fmt[0] else r.choice(['UQ', 'U', 'QU', 'qu', 'Uq', 'u']),
                                            fmt[1] - fmt[2], fmt[2])
         return op
 
@@ -1255,7 +1255,7 @@ class Gen(object):
             if r.random() < 0.5:
                 op['dtype'] = 'fxp-%s%d/%d' % ('s' if f[0] else 'u', f[1], f[2])
             elif f[1] - f[2] >= 0:
-                op['dtype'] = '%s%d.%d' % (r.choice(['Q', 'S', 'q']) if f[0] else r.choice(['UQ', 'U', 'uq']),
+                op['dtype'] = '%s%d.%d' % (r.choice(['Q', 'S', 'q', 's']) if f[0] else r.choice(['UQ', 'U', 'uq', 'QU', 'qu', 'Qu', 'u']),
                                            f[1] - f[2], f[2])
         elif r.random() < 0.15:
             # n_int with exactly one other size (and possibly a sign change)
